@@ -323,6 +323,11 @@ def run(ctx):
                     return str(a.get('v')) in ('"0"', "'0'")
                 return any(og[0] == 'const' and str(og[1].get('v')) == '"0"' for og in _og20(mb, a))
             zl = [pos for pos, t_ in mb.iter_calls() if call_matches(t_, r'PartialEq.*::(eq|ne)$|cmp::PartialEq::(eq|ne)$') and any(_is_zero_lit(a) for a in t_['args'])]
+            if not zl and 'zero' in src and 'prefix:0' not in src:
+                # the literal is a promoted constant in the MIR; the syntax tree of this function has the comparison with "0", the prefix
+                # chain is in an inlined helper: a text comparison (String / str operands) that dominates the octal prefix test
+                zl = [pos for pos, t_ in mb.iter_calls() if call_matches(t_, r'PartialEq.*::(eq|ne)$|cmp::PartialEq::(eq|ne)$')
+                      and all(isinstance(a, dict) and 'l' in a and re.search(r'\bstr\b|String', mb.local_ty(a['l']) or '') for a in t_['args'])]
             zero_first = any(mb.pos_dominates(z, tp['0']) for z in zl)
         ok_order = zero_first and '0' in tp and all(p in tp and mb.pos_dominates(tp[p], tp['0']) for p in ('0x', '0X', '0b', '0B'))
         C.check(ok_order, 'C20-SIB-radix', name + '|arm-order', 'in %s the one-character prefix "0" (octal) is tested before the literal "0" or before a two-character prefix: "0" would be read as an empty octal number / "0x10" as octal' % name, where,
@@ -338,7 +343,14 @@ def run(ctx):
     for name in tabs:
         fn_ = fns[name]
         ok_oct = False
+        # the chain may live in a helper of the same file that this function calls (`let (radix, digits) = split_radix_prefix(text)`)
+        bodies_ = [fn_['body']]
         for n in walk(fn_['body']):
+            if n.get('k') == 'call' and isinstance(n.get('f'), dict):
+                hn = str(n['f'].get('v', '')).split('::')[-1]
+                if hn in fns and hn != name and fns[hn]['body'] not in bodies_:
+                    bodies_.append(fns[hn]['body'])
+        for n in (x for b_ in bodies_ for x in walk(b_)):
             if n.get('k') == 'if' and isinstance(n.get('c'), dict):
                 cond = n['c']
                 sp = [x for x in walk(cond) if x.get('k') == 'mcall' and x.get('m') == 'strip_prefix' and x['args'] and str(x['args'][0].get('v')) == '0']
